@@ -135,9 +135,12 @@ fn fresh_with<'p>(prog: &'p Program, warnings: bool) -> Pair<'p> {
     real.call(Op::Line("B$=\"AB\"".into()));
     real.call(Op::Line("DIM M(3)".into()));
     real.call(Op::Line("M(1)=4".into()));
+    // ABS, INT and RND are ordinary names when no parenthesis follows
+    real.call(Op::Line("INT=3".into()));
     let mut model = Machine::new(prog, 0);
     model.vars.insert("A".into(), Val::N(7.0));
     model.vars.insert("B$".into(), Val::S("AB".into()));
+    model.vars.insert("INT".into(), Val::N(3.0));
     let _ = model.eval(&Expr::Num("0".into()));
     // DIM M(3): M(1)=4
     model.arrays.insert(
@@ -240,7 +243,8 @@ fn random_expr(rng: &mut Rng, depth: u32) -> Expr {
                 }
             }
             10 => Expr::Cell("M".into(), vec![random_expr(rng, 1)]),
-            _ => Expr::Num("4".into()),
+            // (in parentheses: blanks do not separate words, so `INT OR` would read as `IN TO R`)
+            _ => if rng.coin() { Expr::Paren(Box::new(var(rng.s(&["INT", "ABS", "RND"])))) } else { Expr::Num("4".into()) },
         };
     }
     match rng.below(12) {
@@ -261,6 +265,11 @@ fn random_expr(rng: &mut Rng, depth: u32) -> Expr {
 }
 
 fn handle<'p>(ctx: &Ctx, index: u64, ordinal: u64, empty: &'p Program, e: Expr, rep: &mut Report, pair: &mut Pair<'p>, source: &str) {
+    // now and then a PRINT that fails after it has evaluated some items: nothing of it may show up later
+    if ordinal % 61 == 0 && !pair.real.poisoned {
+        pair.real.call(Op::Line("PRINT 7;\"x\";1/0".into()));
+        rep.count("failing_multi_item_prints_interleaved");
+    }
     if !compare(ctx, rep, index, pair, &e, source) && pair.real.poisoned {
         *pair = fresh(empty);
     }
